@@ -92,8 +92,9 @@ Record td_state := mkTD { td_tree : option (list entry); td_commit : N }.
 
 Definition td_zero : td_state := mkTD None 0.
 
-(* Initialize: previousTree = nil; previousCommit is NOT reset. *)
-Definition td_initialize (s : td_state) : td_state := mkTD None (td_commit s).
+(* Initialize: previousTree = nil and previousCommit = plumbing.ZeroHash (since commit 3598ee8; before it the previous
+   commit survived, finding F24: [td_initialize_before_fix] in ReuseProofs.v). *)
+Definition td_initialize (s : td_state) : td_state := mkTD None 0.
 
 (* checkLanguage (the error is dropped by filterDiffs; in the first listing it cannot occur after
    Files() has loaded the blob) *)
